@@ -4,6 +4,7 @@ package smt
 
 import (
 	"fmt"
+	"math"
 	"strings"
 )
 
@@ -192,6 +193,14 @@ func evalOp(op string, w int, p1, p2 int, a []uint64, aw []int) uint64 {
 		return b2u(sext(a[0], aw[0]) < sext(a[1], aw[1]))
 	case "bvsle":
 		return b2u(sext(a[0], aw[0]) <= sext(a[1], aw[1]))
+	case "fp.lt":
+		return b2u(math.Float64frombits(a[0]) < math.Float64frombits(a[1]))
+	case "fp.leq":
+		return b2u(math.Float64frombits(a[0]) <= math.Float64frombits(a[1]))
+	case "fp.eq":
+		return b2u(math.Float64frombits(a[0]) == math.Float64frombits(a[1]))
+	case "fp.isNaN":
+		return b2u(math.IsNaN(math.Float64frombits(a[0])))
 	case "=":
 		return b2u(a[0] == a[1])
 	case "not":
@@ -514,4 +523,15 @@ func headOf(t *Term) string {
 // EvalConst evaluates a binary bit-vector operation or comparison on constants.
 func EvalConst(op string, w int, a, b uint64) uint64 {
 	return evalOp(op, w, 0, 0, []uint64{a & mask(w), b & mask(w)}, []int{w, w})
+}
+
+// FP builds a float64 comparison over IEEE-754 bit patterns (64-bit vectors):
+// op is fp.lt, fp.leq, fp.eq or fp.isNaN.
+func (c *Ctx) FP(op string, args ...*Term) *Term {
+	for _, a := range args {
+		if a.W != 64 {
+			panic("smt: FP operand must be a 64-bit pattern")
+		}
+	}
+	return c.app(op, 0, 0, 0, args...)
 }
